@@ -1,10 +1,8 @@
 #!/bin/bash
-# usage: selftest/run_mutants.sh [Cxx ...]   -- runs every selftest/mutations/<Cxx>-*.diff against its check
+# usage: selftest/run_mutants.sh [-j N] [Cxx ...]   -- runs every selftest/mutations/<Cxx>-*.diff against its check
 cd "$(dirname "${BASH_SOURCE[0]}")/.."
+J=3
+if [ "${1:-}" = "-j" ]; then J=$2; shift 2; fi
 PROPS=${@:-$(ls selftest/mutations | sed 's/-.*//' | sort -u)}
-for p in $PROPS; do
-  for m in selftest/mutations/$p-*.diff; do
-    [ -f "$m" ] || continue
-    selftest/mutate.sh $m $p 2>&1 | head -1 | cut -c1-220
-  done
-done
+for p in $PROPS; do ls selftest/mutations/$p-*.diff 2>/dev/null | sed "s/^/$p /"; done |
+  xargs -P $J -L 1 bash -c 'selftest/mutate.sh $1 $0 2>&1 | head -1 | cut -c1-220'
